@@ -197,6 +197,13 @@ pub fn gen(rng: &mut Rng, tier: Tier, out: &mut Vec<String>) {
         if i % 2 == 0 { let d = dir(rng, md); let b2 = dir(rng, big.sqrt());
             emit(out, "c", "cubic-disparity", refine, &[c, b2, b, a], &[]); emit(out, "c", "cubic-disparity", refine, &[c, b, d, a], &[]); }
     } }
+    // closed-form paths with a root at zero, polished: the closed form returns a value of size ~1e-80 and the
+    // Laguerre refinement divides by |p(x)|^2, which underflows there (defect D9: a non-finite step)
+    for _ in 0..(if tier == Tier::Quick { 150 } else { 1500 }) {
+        let deg = 2 + rng.below(2);
+        let mut c: Vec<Cmplx> = (0..=deg).map(|_| Cmplx::new(rng.f_general(3.0), 0.0)).collect(); c[0] = z0;
+        emit(out, "f", "zero-root-polished", 1, &c, &[]);
+    }
     // degree 0 and the empty polynomial are rejected
     emit(out, "f", "degree0", 0, &[Cmplx::new(3.0, 0.0)], &[]);
     emit(out, "c", "degree0", 1, &[Cmplx::new(3.0, 1.0)], &[]);
